@@ -2757,6 +2757,9 @@ class Problem(object, metaclass=ProblemMetaclass):
         """
         if coloring_mod._use_total_sparsity:
             coloring = None
+            # a coloring_info supplied by the caller goes with the caller's of/wrt lists
+            callers_info = (coloring_info is not None and
+                            coloring_info is not self.driver._coloring_info)
             # if no coloring_info is supplied, copy the coloring_info from the driver but
             # remove any existing coloring, and force dynamic coloring
             if coloring_info is None:
@@ -2767,11 +2770,17 @@ class Problem(object, metaclass=ProblemMetaclass):
             if coloring_info.do_compute_coloring():
                 if coloring_info.dynamic:
                     do_run = run_model if run_model is not None else self._run_counter < 0
+                    driver_info = self.driver._coloring_info
+                    driver_coloring = driver_info.coloring
                     coloring = \
                         coloring_mod.dynamic_total_coloring(
                             self.driver, run_model=do_run,
                             fname=self.model.get_coloring_fname(mode='output'),
                             of=of, wrt=wrt)
+                    if callers_info:
+                        # dynamic_total_coloring stores its result in the driver, but this coloring
+                        # belongs to the caller's coloring_info and of/wrt lists: keep the driver's.
+                        driver_info.coloring = driver_coloring
             else:
                 return coloring_info.coloring
 
